@@ -34,6 +34,9 @@ structure St where
   stack : List (SInfo × Shape)
   shapes : List (List Nat)
   rargs : List (List Int)
+  /-- type of the PLAIN `nmtools::shape(a)` of the operand on top of the stack when it differs from its knowledge
+      (a `na::fixed_ndarray` leaf: run-time array of the constant extents); reset by every operation -/
+  plain : Option ShapeK := none
 
 abbrev M := Except String
 
@@ -238,7 +241,8 @@ def stepGen (st : St) (fields : List String) : Option (M St) :=
       let sn ← nat? (sf.drop 1).toString
       let ceil := args.contains "c1"
       let sk : ArrK := match kk with | .ct _ => .ct [sn, sn] | _ => .rt 2
-      unary st (transferPool2d kk sk ceil) (refPool ceil kvn [sn, sn])
+      let plain := st.plain
+      unary st (fun i => transferPool2dOn (plain.getD i.shape) kk sk ceil) (refPool ceil kvn [sn, sn])
     else if name == "resize" then some do
       let (k, v, st) ← arrArg args st
       let t ← toNats v
@@ -282,7 +286,7 @@ def step (st : St) (tok : String) : M St := do
     | [] => .error "missing-shape"
     | s :: ss =>
       let i ← need (leafInfo kind P) "unknown-leaf-kind"
-      pure { st with stack := (i, s) :: st.stack, shapes := ss }
+      pure { st with stack := (i, s) :: st.stack, shapes := ss, plain := if kind == "fx" then some (.fixedDim P.length) else none }
   | "transpose" :: args =>
     let ((i, s), st) ← pop1 st
     match args with
@@ -366,7 +370,10 @@ def step (st : St) (tok : String) : M St := do
 
 def run (rpn : String) (shapes : List (List Nat)) (rargs : List (List Int)) : String :=
   let toks := (rpn.splitOn ";").filter (· ≠ "")
-  match toks.foldlM step { stack := [], shapes := shapes, rargs := rargs } with
+  let step' (st : St) (tok : String) : M St := do
+    let st' ← step st tok
+    pure (if tok.startsWith "L." then st' else { st' with plain := none })
+  match toks.foldlM step' { stack := [], shapes := shapes, rargs := rargs } with
   | .error e => s!"M unsupported:{e}"
   | .ok st =>
     match st.stack with
